@@ -81,8 +81,7 @@ type rawScn struct {
 	cfg   rawCfg
 	sock  mangos.Socket
 	pipes map[string]*vt.Pipe
-	id2p  map[uint32]string
-	p2id  map[string]uint32
+	ids   *hx.IDMap
 	npipe int
 	nmsg  int
 	rng   *rand.Rand
@@ -121,8 +120,8 @@ func rawDecode(dir string, b []byte) []interface{} {
 }
 
 func (c *rawScn) pname(id uint32) string {
-	if n, ok := c.id2p[id]; ok {
-		return n
+	if c.ids.Has(id) {
+		return c.ids.Name(id)
 	}
 	return "none"
 }
@@ -165,7 +164,8 @@ func (c *rawScn) mkSend(kind string) (hdr, body []byte, ok bool, to, skip string
 	case "xbus":
 		if !c.cfg.P.cooked && kind == "fwd" && len(live) > 0 {
 			skip = live[c.rng.Intn(len(live))]
-			hdr = binary.BigEndian.AppendUint32(nil, c.p2id[skip])
+			sid, _ := c.ids.ID(skip)
+			hdr = binary.BigEndian.AppendUint32(nil, sid)
 		} else if !c.cfg.P.cooked && kind == "fwdgone" {
 			hdr = binary.BigEndian.AppendUint32(nil, 0x7fffff01) // an origin that is not connected
 		}
@@ -186,9 +186,10 @@ func (c *rawScn) mkSend(kind string) (hdr, body []byte, ok bool, to, skip string
 					}
 				}
 			}
-			hdr = binary.BigEndian.AppendUint32(nil, c.p2id[to])
+			tid, known := c.ids.ID(to)
+			hdr = binary.BigEndian.AppendUint32(nil, tid)
 			hdr = binary.BigEndian.AppendUint32(hdr, 0x80000005)
-			if _, known := c.p2id[to]; !known {
+			if !known {
 				to = "none"
 			}
 		}
@@ -312,12 +313,13 @@ func runRaw(t *testing.T, cfg rawCfg, seed int64) (sim.Result, rec.Ev) {
 	eff := rec.Ev{}
 	res := sim.Run(t, 10*time.Second, func(s *sim.S) {
 		defer withLedger(s.Rec)()
-		c := &rawScn{s: s, cfg: cfg, pipes: map[string]*vt.Pipe{}, id2p: map[uint32]string{}, p2id: map[string]uint32{},
+		baseIDs := hx.BaseIDs()
+		c := &rawScn{s: s, cfg: cfg, pipes: map[string]*vt.Pipe{}, ids: hx.NewIDMap(),
 			rng: rand.New(rand.NewSource(seed))}
 		s.Net.Decode = rawDecode
 		rp := &hx.RecProto{Protocol: cfg.P.mk(), Rec: s.Rec, Early: true}
 		c.sock = protocol.MakeSocket(rp)
-		hx.Hook(c.sock, s.Rec, func(ev, name string, p mangos.Pipe) { c.id2p[p.ID()] = name; c.p2id[name] = p.ID() })
+		hx.Hook(c.sock, s.Rec, func(ev, name string, p mangos.Pipe) { c.ids.Set(p.ID(), name) })
 		// options: a protocol that does not have one keeps its built-in behaviour
 		try := func(name string, v interface{}) {
 			err := c.sock.SetOption(name, v)
@@ -368,6 +370,7 @@ func runRaw(t *testing.T, cfg rawCfg, seed int64) (sim.Result, rec.Ev) {
 		g := sim.Census()
 		sort.Strings(g)
 		s.Rec.Emit("census", "n", len(g), "g", fmt.Sprint(g))
+		hx.Final(s.Rec, c.sock, baseIDs)
 	})
 	eff["proto"] = cfg.P.name
 	eff["eng"] = cfg.P.eng
@@ -509,6 +512,7 @@ func TestRaw(t *testing.T) {
 			if out.Stop() {
 				break
 			}
+			cfg.Steps = closeMix(cfg.Steps, rng, []string{"send ok", "recv", "send ok", "conn", "send fwd", "adv 1s", "recv", "send ok", "sclose"})
 			res, eff := runRaw(t, cfg, seed()*7919+int64(i))
 			out.Add(fmt.Sprintf("%s-%d", p.name, i), eff, fmt.Sprint(cfg.P.name, cfg.Steps, cfg.SQ, cfg.RQ), res)
 		}
